@@ -18,7 +18,7 @@ ASSUMPTIONS = ["tolerance 1e-12 where a mean or a polyline length (sqrt) is take
 TESTED_NOT_PROVED = ["the polyline length as divisor (sqrt) and PIL's pixel access are evaluated by the oracle; linearity / homogeneity in the image and "
                      "the uniform-image clause are proved for the model (C17_integrated_scale/_add, C17_non_integrated_scale/_uniform) and re-checked "
                      "on the implementation by the oracle"]
-IMPORTS = "From Forsys Require Import Model.CaseUtil Model.Myosin Model.Band.\n"
+IMPORTS = "From Forsys Require Import Model.CaseUtil Model.Resample Model.Myosin Model.Band.\n"
 
 
 def band_pixels(be, layers, rescale, offset):
@@ -152,6 +152,29 @@ def check_case(res, fr, arr, mode, layers, integrate, normalize, rescale, offset
                 exprs.append((imgf + f"Qle_bool (Qabs (non_integrated img {layers} {pl} - {C.qlit(r_)})) (1 # 1000000000)", replay))
 
 
+def window_cases(res, rng, exprs, n):
+    """Model/Myosin.v layer_elements around the pixel a float position falls into (truncation in binary64, Model/Resample.v float_trunc) against
+    myosin.get_layer_elements on positions at, just below and just above whole pixels (where adding the offsets to the float would round)"""
+    for k in range(n):
+        layers = int(rng.integers(0, 4))
+        base = [float(rng.integers(3, 400)), float(rng.integers(3, 400))]
+        pos = []
+        for b in base:
+            kind = int(rng.integers(0, 4))
+            pos.append([b, float(np.nextafter(b, 0.0)), float(np.nextafter(b, 1e9)), b + float(rng.uniform(0.01, 0.99))][kind])
+        try:
+            got = impl.fs.myosin.get_layer_elements(pos, layers)
+            got = [(int(a_), int(b_)) for a_, b_ in got]
+            whole = all(float(a_) == int(a_) and float(b_) == int(b_) for a_, b_ in impl.fs.myosin.get_layer_elements(pos, layers))
+        except Exception as ex:  # noqa
+            res.fail("oracle", f"get_layer_elements raised {type(ex).__name__}: {str(ex)[:60]}", {"position": pos, "layers": layers})
+            continue
+        exprs.append((f"let w := layer_elements (float_trunc {C.flit(pos[0])}) (float_trunc {C.flit(pos[1])}) {layers} in "
+                      f"Nat.eqb (length w) {len(got)} && pixset_eqb w [" + "; ".join(f"({a_}, {b_})" for a_, b_ in got) + f"] && {C.blit(whole)}",
+                      {"what": "window", "position": pos, "layers": layers, "label": "window", "integrate": False, "normalize": None, "rescale": [1, 1], "offset": [0, 0]}))
+        res.count("window positions (Model/Myosin.v layer_elements on the truncated position)")
+
+
 def cases(rng, tier):
     # interfaces made of exactly horizontal / vertical segments through pixel-lattice points (several pixels long, integer coordinates)
     for j in range(2 if tier == "quick" else 8):
@@ -186,11 +209,13 @@ def run(res, tier, seed):
             # an interface listed twice is part of the quantifier: always with 'average' normalisation, at random otherwise
             repeat = True if normalize == "average" else bool(rng.integers(0, 2))
             check_case(res, fr, arr, mode, layers, integrate, normalize, rescale, offset, repeat, exprs, label, spec)
+    window_cases(res, rng, exprs, 16 if tier == "quick" else 120)
     bools, outs = C.coq_eval_bools("C17", IMPORTS, [e for e, _ in exprs], chunk=10)
     for (e, rp), b in zip(exprs, bools):
         res.traces += 1
         if b is not True:
-            res.fail("correspondence", ("model != implementation (band of pixels, Model/Band.v vs myosin.get_interpolation)" if rp.get("what") == "band" else
+            res.fail("correspondence", ("model != implementation (window of pixels around a float position, Model/Myosin.v layer_elements vs myosin.get_layer_elements)" if rp.get("what") == "window" else
+                                        "model != implementation (band of pixels, Model/Band.v vs myosin.get_interpolation)" if rp.get("what") == "band" else
                                         "model != implementation (interface intensity)") if b is False else "case did not evaluate",
                      {"correspondence": "Model/Myosin.v vs myosin.get_intensities", "case": {k: rp[k] for k in ("label", "layers", "integrate", "normalize", "rescale", "offset")}})
 
